@@ -408,6 +408,16 @@ class _EnvNF(NF):
             if k in self.st.env:
                 return self.st.env[k]
             return A.atom(k)
+        if isinstance(e, ast.IfExp):
+            # a conditional expression whose test is decided by the valuation is its selected branch
+            t = self.sym._eval_test(e.test, self.st)
+            if t is True:
+                return self.nf(e.body)
+            if t is False:
+                return self.nf(e.orelse)
+            b, o = self.nf(e.body), self.nf(e.orelse)
+            if A.equal(b, o):
+                return b
         return super().nf(e)
 
     def _opaque(self, e: ast.AST) -> str:
